@@ -207,8 +207,9 @@ class ScriptedPathProcess:
     """standard-engine process handing out explicit multi-point paths (world list ``stub_paths``): sample i has
     diffusion component ``stub_paths[i][0]`` and pure-jump component ``stub_paths[i][1]`` on the process's times"""
 
-    def __init__(self, base, times, log, df_value=1.0):
+    def __init__(self, base, times, log, df_value=1.0, drift=0.0):
         self.base = float(base)
+        self.drift = float(drift)
         self._times = np.asarray(times, dtype=float)
         self.model = StubModel(df_value, log=log)
         self.process_representation = self.model.process_representation
@@ -223,7 +224,7 @@ class ScriptedPathProcess:
         pass
 
     def deterministic_path(self, times):
-        return self.base + 0.0 * np.asarray(times, dtype=float)
+        return self.base + self.drift * np.asarray(times, dtype=float)
 
     def df(self, t):
         return self.model.df(t)
@@ -240,9 +241,11 @@ class ScriptedPathProcess:
         wd.stub_serial += 1
         if serial >= len(wd.stub_paths):
             raise HarnessError("scripted path process exhausted")
-        d, j = wd.stub_paths[serial]
+        entry = wd.stub_paths[serial]
+        d, j = entry[0], entry[1]
+        times = np.array(entry[2], dtype=float) if len(entry) > 2 and entry[2] is not None else self._times
         wd.stub_ledger.append({"serial": serial, "level": None, "ctx": wd.current.name})
-        return TaggedPath(self._times, np.array(d, dtype=float), np.array(j, dtype=float), serial)
+        return TaggedPath(times, np.array(d, dtype=float), np.array(j, dtype=float), serial)
 
 
 class ScriptedPathCoupling:
@@ -250,8 +253,9 @@ class ScriptedPathCoupling:
     sample i's path, the fine path is the next entry of the list (so that fine and coarse differ and may cross a
     barrier independently)"""
 
-    def __init__(self, base, times, log, df_value=1.0, names=None):
+    def __init__(self, base, times, log, df_value=1.0, names=None, drift=0.0):
         self.names = names
+        self.drift = float(drift)
         self.base = float(base)
         self._times = np.asarray(times, dtype=float)
         self.model = StubModel(df_value, log=log)
@@ -278,10 +282,11 @@ class ScriptedPathCoupling:
             pm.update(self.fine_process.process_representation)
 
             names = self.names
+            drift = self.drift
 
             def coupling_deterministic_path(times_input):
                 t = np.asarray(times_input, dtype=float)
-                out = np.array([base + 0.0 * t, base + 0.0 * t])
+                out = np.array([base + drift * t, base + drift * t])
                 return out[:, np.newaxis, :] if names else out
 
             pm.deterministic_path = coupling_deterministic_path
@@ -297,16 +302,20 @@ class ScriptedPathCoupling:
 
     def simulate_one_path(self):
         wd = _world()
-        serial, (d, j) = self._next()
+        serial, entry = self._next()
+        d, j = entry[0], entry[1]
+        times = np.array(entry[2], dtype=float) if len(entry) > 2 and entry[2] is not None else self._times
         wd.stub_ledger.append({"serial": serial, "level": 0, "ctx": wd.current.name})
-        return TaggedPath(self._times, np.array(d, dtype=float), np.array(j, dtype=float), serial)
+        return TaggedPath(times, np.array(d, dtype=float), np.array(j, dtype=float), serial)
 
     def simulate_one_path_with_coupling(self):
         wd = _world()
-        s1, (d1, j1) = self._next()
-        s2, (d2, j2) = self._next()
+        s1, e1 = self._next()
+        s2, e2 = self._next()
+        # the pair lives on one time grid: the one of the first entry
+        times = np.array(e1[2], dtype=float) if len(e1) > 2 and e1[2] is not None else self._times
         wd.stub_ledger.append({"serial": s1, "level": self.level, "ctx": wd.current.name})
-        return TaggedPath(self._times, np.array([d1, d2], dtype=float), np.array([j1, j2], dtype=float), (s1, s2))
+        return TaggedPath(times, np.array([e1[0], e2[0]], dtype=float), np.array([e1[1], e2[1]], dtype=float), (s1, s2))
 
 
 class _FineProcessPath:
@@ -315,7 +324,7 @@ class _FineProcessPath:
         self.process_representation = owner.model.process_representation
 
     def deterministic_path(self, times):
-        return self.owner.base + 0.0 * np.asarray(times, dtype=float)
+        return self.owner.base + self.owner.drift * np.asarray(times, dtype=float)
 
     def df(self, t):
         return self.owner.model.df(t)
